@@ -63,71 +63,3 @@ pub(crate) fn c20_uninitialised_slot_emit_pipeline() {
     assert!(!slot.is_enabled());
     kani::cover!(true);
 }
-
-use core::sync::atomic::{AtomicUsize, Ordering};
-
-static WINNER_CALLS: AtomicUsize = AtomicUsize::new(0);
-static LOSER_CALLS: AtomicUsize = AtomicUsize::new(0);
-
-/// An emitter that counts what it receives in a static (so the count outlives the emitter) and, unlike `Empty`,
-/// answers `false` to a flush.
-struct CountEmitter {
-    tag: u8,
-    calls: &'static AtomicUsize,
-}
-
-impl Emitter for CountEmitter {
-    fn emit<E: emit::event::ToEvent>(&self, _: E) {
-        self.calls.fetch_add(1, Ordering::Relaxed);
-    }
-    fn blocking_flush(&self, _: core::time::Duration) -> bool {
-        self.calls.fetch_add(1, Ordering::Relaxed);
-        false
-    }
-}
-
-/// One thread, two initialisers in a row, through the REAL `init` / `get` (Box erasure, `downcast_ref`, the raw
-/// pointer casts): the first `init` returns Some of its own components and enables the slot; the second returns None,
-/// its emitter never receives a call; the runtime `get` hands out afterwards is the first one's.
-#[cfg_attr(kani, kani::proof)]
-#[cfg_attr(kani, kani::unwind(4))]
-pub(crate) fn c20_second_init_loses() {
-    WINNER_CALLS.store(0, Ordering::Relaxed);
-    LOSER_CALLS.store(0, Ordering::Relaxed);
-    let slot = emit::runtime::AmbientSlot::new();
-    let a: u8 = kani::any();
-    let b: u8 = kani::any();
-    let first = slot.init(emit::runtime::Runtime::build(
-        CountEmitter { tag: a, calls: &WINNER_CALLS },
-        emit::Empty,
-        emit::Empty,
-        emit::Empty,
-        emit::Empty,
-    ));
-    assert!(slot.is_enabled());
-    let Some(installed) = first else {
-        assert!(false);
-        return;
-    };
-    assert!(installed.emitter().tag == a);
-
-    let second = slot.init(emit::runtime::Runtime::build(
-        CountEmitter { tag: b, calls: &LOSER_CALLS },
-        emit::Empty,
-        emit::Empty,
-        emit::Empty,
-        emit::Empty,
-    ));
-    assert!(second.is_none());
-    assert!(slot.is_enabled());
-    assert!(WINNER_CALLS.load(Ordering::Relaxed) == 0);
-
-    // an observer reaches the winner's emitter (a flush through `Empty` would answer true)
-    assert!(!slot.get().emitter().blocking_flush(core::time::Duration::new(0, 0)));
-    let props = [("k", 1u64)];
-    let evt = Event::new(Path::new_raw("m"), Template::literal("t"), emit::Empty, &props);
-    slot.get().emitter().emit(&evt);
-    assert!(WINNER_CALLS.load(Ordering::Relaxed) == 2);
-    assert!(LOSER_CALLS.load(Ordering::Relaxed) == 0);
-    kani::cover!(true);
-}
